@@ -98,6 +98,28 @@ def oracle(ctx, case, real, rt):
             if not ok:
                 ctx.violation("a typed message was not delivered but was not followed by eliot:traceback + eliot:serialization_failure", case)
                 return
+            # "logged in the current context": the end message of a `with action:` block is written after the block's
+            # context was left, so its failure notices belong to the enclosing context, never inside the finished action
+            lvl = m.get("task_level")
+            if m.get("action_status") in ("succeeded", "failed") and isinstance(lvl, list) and isinstance(m.get("task_uuid"), dict):
+                own = [m["task_uuid"].get("uuid"), lvl[:-1]]
+                # i - 1 is the index of the failed write; it must have been made by that action's own __exit__
+                for tag, n0, n1, before in rt.with_exits:
+                    if not (isinstance(tag, (list, tuple)) and list(tag) == own and n0 <= i - 1 < n1):
+                        continue
+                    for jj in range(i, j + 1):
+                        w = writes[jj][0]
+                        if w.get("message_type") not in ("eliot:traceback", "eliot:serialization_failure"):
+                            continue
+                        wl, wu = w.get("task_level"), (w.get("task_uuid") or {}).get("uuid") if isinstance(w.get("task_uuid"), dict) else None
+                        if before is None:
+                            good = wl == [1]
+                        else:
+                            good = isinstance(wl, list) and wu == before[0] and wl[:-1] == before[1]
+                        if not good:
+                            ctx.violation("the failure notices for the END message of a `with action:` block were logged at %s/%s, not in the context "
+                                          "that is current once the block is left (%s)" % (wu, wl, before), case)
+                            return
             i = j + 1
     ctx.count("typed_delivered", n=typed_delivered)
     ctx.count("serializer_failures", n=failures)
